@@ -46,15 +46,20 @@ func Harness_C12_refname() {
 var nameMenu = []string{"a", "a/b", "a/b/c", "a/c", "ab", "b", "b/.", "c//d"}
 
 // Harness_C12_step: one transaction against an arbitrary conflict-free live set is accepted exactly when the resulting live set is conflict-free and every added name is valid (inductive step: covers histories of any length whose live set stays within the bound).
-// bounds: live set = any conflict-free subset (size <= 3) of the valid names of the menu {a, a/b, a/b/c, a/c, ab, b}; transaction = any subset (size <= 3) of the menu (including the invalid names b/. and c//d), each record an addition or a deletion, in name order
+// bounds: live set = any conflict-free subset (size <= 3) of the valid names of the menu {a, a/b, a/b/c, a/c, ab, b}; transaction = any subset (size <= 3) of the menu (including the invalid names b/. and c//d), each record an addition of a value ref or of a symbolic ref, or a deletion, in name order; the live refs are all value refs or all symbolic refs
 // covers: accepted, rejected
 func Harness_C12_step() {
 	var live []string
 	tab := &memTable{name: "live", min: 1, max: 1}
+	liveSym := VerifChoose(2) == 1 // the live refs are symbolic refs
 	for i := 0; i < 6; i++ {
 		if len(live) < 3 && VerifChoose(2) == 1 {
 			live = append(live, nameMenu[i])
-			tab.refs = append(tab.refs, RefRecord{RefName: nameMenu[i], UpdateIndex: 1, Value: hashWith(20, 1, 1)})
+			lr := RefRecord{RefName: nameMenu[i], UpdateIndex: 1, Value: hashWith(20, 1, 1)}
+			if liveSym {
+				lr = RefRecord{RefName: nameMenu[i], UpdateIndex: 1, Target: "HEAD"}
+			}
+			tab.refs = append(tab.refs, lr)
 		}
 	}
 	if specNameConflicts(live) {
@@ -67,9 +72,15 @@ func Harness_C12_step() {
 		if len(recs) >= 3 {
 			break
 		}
-		switch VerifChoose(3) {
-		case 1: // add / update
+		k := VerifChoose(4)
+		if k == 3 { // add / update a symbolic ref: a live ref like any other
+			recs = append(recs, RefRecord{RefName: nameMenu[i], UpdateIndex: 2, Target: "refs/t"})
+			k = 1
+		} else if k == 1 {
 			recs = append(recs, RefRecord{RefName: nameMenu[i], UpdateIndex: 2, Value: hashWith(20, 2, 2)})
+		}
+		switch k {
+		case 1: // add / update
 			if !specValidName(nameMenu[i]) {
 				allValid = false
 			}
